@@ -93,6 +93,7 @@ type Interp struct {
 	pcCount int
 	extra     map[string]interface{}
 	syncHook  func(op string, mu value)
+	panics    []*panicState
 	errStack  []string
 	errWhere  string
 }
@@ -612,36 +613,70 @@ func (in *Interp) callSSA(caller *frame, pos token.Pos, fn *ssa.Function, args [
 	fr.block = fn.Blocks[0]
 	saved := in.curFrame
 	in.curFrame = fr
-	panicking := true
-	defer func() {
-		if panicking {
-			// run deferred calls while unwinding a target panic (no recover support beyond summaries)
+	// run the body; a target panic unwinds through the deferred calls, which may recover it
+	var escaped interface{}
+	func() {
+		defer func() {
 			if r := recover(); r != nil {
-				if _, ok := r.(targetPanic); ok && len(fr.defers) > 0 {
-					ds := fr.defers
-					fr.defers = nil
-					func() {
-						defer func() { recover() }()
-						for i := len(ds) - 1; i >= 0; i-- {
-							ds[i]()
-						}
-					}()
-				}
-				in.curFrame = fr
-				if in.errStack == nil {
-					in.errStack = in.stack()
-					in.errWhere = fr.fn.String()
-				}
-				panic(r)
+				escaped = r
 			}
+		}()
+		for fr.block != nil {
+			in.runBlock(fr)
 		}
 	}()
-	for fr.block != nil {
-		in.runBlock(fr)
+	if escaped != nil {
+		in.curFrame = fr
+		if in.errStack == nil {
+			in.errStack = in.stack()
+			in.errWhere = fr.fn.String()
+		}
+		tp, isTarget := escaped.(targetPanic)
+		if !isTarget || len(fr.defers) == 0 {
+			panic(escaped)
+		}
+		ps := &panicState{val: tp}
+		in.panics = append(in.panics, ps)
+		ds := fr.defers
+		fr.defers = nil
+		var second interface{}
+		func() {
+			defer func() {
+				if r := recover(); r != nil {
+					second = r
+				}
+			}()
+			for i := len(ds) - 1; i >= 0; i-- {
+				ds[i]()
+			}
+		}()
+		in.panics = in.panics[:len(in.panics)-1]
+		if second != nil {
+			panic(second)
+		}
+		if !ps.recovered {
+			panic(escaped)
+		}
+		// recovered: continue at the recover block (named results) or return zero values
+		in.errStack, in.errWhere = nil, ""
+		in.curFrame = fr
+		if fn.Recover != nil {
+			fr.block = fn.Recover
+			fr.prev = nil
+			for fr.block != nil {
+				in.runBlock(fr)
+			}
+		} else {
+			fr.result = zeroResult(fn)
+		}
 	}
-	panicking = false
 	in.curFrame = saved
 	return fr.result
+}
+
+type panicState struct {
+	val       targetPanic
+	recovered bool
 }
 
 func (in *Interp) runBlock(fr *frame) {
@@ -762,8 +797,11 @@ func (in *Interp) visit(fr *frame, instr ssa.Instruction) bool {
 		}
 		*addr = zero(instr.Type().Underlying().(*types.Pointer).Elem())
 	case *ssa.MakeSlice:
-		n := in.concreteInt(fr.get(instr.Len), "make len")
-		c := in.concreteInt(fr.get(instr.Cap), "make cap")
+		n := in.makeLen(fr.get(instr.Len).(*Term))
+		c := n
+		if instr.Cap != instr.Len {
+			c = in.makeLen(fr.get(instr.Cap).(*Term))
+		}
 		if n < 0 || c < n {
 			panic(targetPanic{Msg: "makeslice: len out of range"})
 		}
@@ -852,6 +890,28 @@ func (in *Interp) visit(fr *frame, instr ssa.Instruction) bool {
 		panic(engineErr("unsupported instruction %T in %s", instr, fr.fn))
 	}
 	return false
+}
+
+// makeLen concretises a (possibly symbolic) allocation length: absurd sizes are a crash of the real
+// program (out of memory is fatal, negative lengths panic), small ones are enumerated.
+func (in *Interp) makeLen(t *Term) int {
+	t = toW(t, 64, true)
+	if t.Const {
+		return int(t.Int())
+	}
+	t = in.share(t)
+	in.panicIf(Or(SLt(t, BVu(64, 0)), SLt(BVu(64, 1<<26), t)), "makeslice: allocation size controlled by the input (len out of range / out of memory)")
+	const lim = 128
+	conds := make([]*Term, lim+2)
+	for i := 0; i <= lim; i++ {
+		conds[i] = Eq(t, BVu(64, uint64(i)))
+	}
+	conds[lim+1] = ULt(BVu(64, lim), t)
+	k := in.decide(conds)
+	if k > lim {
+		panic(engineErr("symbolic allocation length above %d in %s", lim, in.where()))
+	}
+	return k
 }
 
 func fieldName(t types.Type, i int) string {
@@ -1814,6 +1874,14 @@ func (in *Interp) callBuiltin(caller *frame, fn *ssa.Builtin, args []value) valu
 	case "print", "println":
 		return nil
 	case "recover":
+		if n := len(in.panics); n > 0 && !in.panics[n-1].recovered {
+			ps := in.panics[n-1]
+			ps.recovered = true
+			if iv, ok := ps.val.V.(Iface); ok && iv.T != nil {
+				return iv
+			}
+			return Iface{T: types.Typ[types.String], V: lit("runtime error: " + ps.val.Msg)}
+		}
 		return Iface{}
 	case "min", "max":
 		acc := args[0].(*Term)
